@@ -79,6 +79,109 @@ pub fn judge_discoveries(case: &Case, g: &GraphData, tag: &str, cfg: &RunCfg, ou
     }
 }
 
+/// As `judge_discoveries` for simulation under the mirror symmetry: a trace of an
+/// eventually-counterexample may end where it re-enters the symmetry class of an earlier state
+/// (that is the cycle test the checker performs under symmetry).
+fn judge_discoveries_symmetric(case: &Case, g: &GraphData, tag: &str, cfg: &RunCfg, out: &RunOut) {
+    let desc = || json!({"model": g.summary(), "strategy": tag, "threads": cfg.threads, "target_state_count": cfg.target_state_count});
+    if !out.finished {
+        case.inconclusive(&format!("{} did not finish within the watchdog", tag));
+        return;
+    }
+    if let Some(msg) = &out.discoveries_panic {
+        let class = if msg.contains("empty path") { "empty-path" } else { "cannot-reconstruct-path" };
+        case.violation(&format!("C03/{}/discoveries-panics:{}", tag, class), json!({"run": desc(), "panic": msg}));
+        return;
+    }
+    if !out.worker_panics.is_empty() {
+        case.violation(&format!("C03/{}/worker-panicked", tag), json!({"run": desc(), "panics": out.worker_panics}));
+        return;
+    }
+    for (name, path) in &out.discoveries {
+        let idx = NAMES.iter().position(|n| n == name).unwrap();
+        let (kind, slot) = &g.props[idx];
+        let label = &g.labels[*slot];
+        case.add("discoveries_validated", 1);
+        case.add(&format!("discoveries_{}_{}", tag, expectation_tag(kind)), 1);
+        let verdict = match kind {
+            Expectation::Eventually => validate_path(g, path).and_then(|_| {
+                if path.iter().any(|(s, _)| label[*s as usize]) {
+                    return Err("eventually-path-contains-satisfying-state".to_string());
+                }
+                let last = path.last().unwrap().0;
+                let terminal = g.in_boundary_successors(last).is_empty();
+                let closes = path[..path.len() - 1].iter().any(|(s, _)| mirror_rep(s) == mirror_rep(&last));
+                if terminal || closes { Ok(()) } else { Err("eventually-path-not-maximal".to_string()) }
+            }),
+            _ => validate_discovery(g, kind, label, path, true),
+        };
+        if let Err(reason) = verdict {
+            case.violation(
+                &format!("C03/{}/{}/{}", tag, expectation_tag(kind), reason),
+                json!({"run": desc(), "property": name, "path": path_json(path)}),
+            );
+            return;
+        }
+    }
+}
+
+/// Runs that are cut short by a timeout (worker subprocesses shared with C12): whatever they
+/// report for an eventually-property that no state satisfies must still be a maximal path. The
+/// chain model has no maximal finite path at all, the tree's only ones end in its leaves.
+fn interrupted_runs(ctx: &Ctx) {
+    let scenarios: Vec<(&str, usize, bool)> = vec![
+        ("simulation", 1, true),
+        ("simulation", 3, true),
+        ("simulation", 2, false),
+        ("bfs", 2, false),
+        ("dfs", 2, false),
+        ("dfs", 1, true),
+        ("on_demand", 2, true),
+        ("bfs", 1, true),
+    ];
+    let scenarios = &scenarios;
+    ctx.cases("interrupted_by_timeout", scenarios.len() as u64, 8, |case| {
+        let (strategy, threads, chain) = scenarios[case.k as usize];
+        let args: Vec<String> = vec![
+            "timeout".into(), strategy.into(), threads.to_string(), "1000".into(), "30".into(), "0".into(),
+            if chain { "1".into() } else { "0".into() },
+        ];
+        case.distinct(crate::ctx::hash_of(&args), true);
+        case.sample(|| json!({"scenario": args}));
+        let out = crate::worker::run_worker(&args, std::time::Duration::from_secs(30));
+        let Some(v) = crate::worker::last_json(&out) else {
+            case.inconclusive(&format!("worker produced no result (killed={} code={:?})", out.killed, out.exit_code));
+            return;
+        };
+        if v["joined"].as_bool() != Some(true) {
+            case.inconclusive(&format!("{} t={}: join had not returned when the observation ended", strategy, threads));
+            return;
+        }
+        case.add("interrupted_runs_observed", 1);
+        let d = &v["never_discovery"];
+        let shape = if chain { "chain" } else { "tree" };
+        if d.is_null() {
+            case.add("interrupted_runs_reporting_nothing", 1);
+            return;
+        }
+        case.add("interrupted_runs_reporting_a_path", 1);
+        if d.get("panic").is_some() {
+            case.violation(&format!("C03/{}/discoveries-panics:after-timeout", strategy), json!({"scenario": args, "result": v}));
+            return;
+        }
+        let real = d["is_a_real_path"].as_bool().unwrap_or(false);
+        let maximal = d["last_is_terminal"].as_bool().unwrap_or(false) || (strategy == "simulation" && d["closes_cycle"].as_bool().unwrap_or(false));
+        if !real {
+            case.violation(&format!("C03/{}/eventually/not-a-transition", strategy), json!({"scenario": args, "model": shape, "reported": d}));
+        } else if !maximal {
+            case.violation(
+                &format!("C03/{}/eventually/eventually-path-not-maximal", strategy),
+                json!({"scenario": args, "model": shape, "reported": d, "note": "run interrupted by its timeout"}),
+            );
+        }
+    });
+}
+
 pub fn run(ctx: &mut Ctx) {
     ctx.rule = "G1 random graphs (boundaries cutting successors, initial states outside the boundary, joins, \
         cycles) with 1-7 properties of all three kinds so that checking continues after the first discovery; \
@@ -108,7 +211,15 @@ pub fn run(ctx: &mut Ctx) {
                 case.add("runs_with_depth_limit", 1);
             }
             let cfg = RunCfg { threads, visitor: 0, finish_when, target_max_depth, ..RunCfg::default() };
-            let out = run_checker(&model, strategy, &cfg, false);
+            let out = if strategy == Strategy::OnDemand && case.rng.pct(50) {
+                // step-wise requests first (down a branch), then run to completion
+                case.add("runs_on_demand_stepwise", 1);
+                let mut rq = case.rng.fork();
+                let k = rq.range(1, 10);
+                run_on_demand_stepwise(&model, &cfg, &mut rq, k, false)
+            } else {
+                run_checker(&model, strategy, &cfg, false)
+            };
             case.add(&format!("runs_{}", strategy.name()), 1);
             long_discovery |= out.discoveries.values().any(|p| p.len() >= 2);
             judge_discoveries(case, &model, strategy.name(), &cfg, &out, false);
@@ -154,5 +265,32 @@ pub fn run(ctx: &mut Ctx) {
         case.add("runs_dfs_symmetry", 1);
         case.distinct(hash, out.discoveries.values().any(|p| p.len() >= 2) && model.props.len() >= 2);
         judge_discoveries(case, &model, "dfs_symmetry", &cfg, &out, false);
+        // simulation with the same symmetry: reported paths must still be executions of the
+        // original model (cycle closing is accepted up to the representative, see validate)
+        if model.inits.iter().any(|i| model.inb[*i as usize]) {
+            let cfg = RunCfg {
+                threads: *case.rng.pick(&[1usize, 2]),
+                visitor: 1,
+                target_state_count: Some(case.rng.range(5, 120)),
+                watchdog: std::time::Duration::from_secs(20),
+                ..RunCfg::default()
+            };
+            let out = run_simulation_symmetry(&model, mirror_rep, case.rng.next_u64() % 1000, &cfg);
+            case.add("runs_simulation_symmetry", 1);
+            if out.finished && out.worker_panics.is_empty() {
+                for p in &out.visits {
+                    case.add("simulation_symmetry_visitor_paths_validated", 1);
+                    if let Err(reason) = validate_path(&model, p) {
+                        case.violation(
+                            &format!("C03/simulation_symmetry/visitor-path-invalid:{}", reason),
+                            json!({"model": model.summary(), "path": path_json(p)}),
+                        );
+                        return;
+                    }
+                }
+            }
+            judge_discoveries_symmetric(case, &model, "simulation_symmetry", &cfg, &out);
+        }
     });
+    interrupted_runs(ctx);
 }
